@@ -23,7 +23,7 @@ func vBatchSize() int64 { return vBatch }
 type vSchedScheduler struct{ c *vsched.Controller }
 
 func (s vSchedScheduler) Schedule(fn func()) { s.c.Go(fn) }
-func (s vSchedScheduler) Throughput() int    { return 1 << 30 }
+func (s vSchedScheduler) Throughput() int    { return 1 } // the cooperative yield of run() (after 2 batches) is reached in every scope
 
 type vSchedProc struct {
 	delivered []int
